@@ -55,6 +55,7 @@ void Kernel::enter_call(Kind k) {
 void Kernel::preempt_point(Thread *t) {
   if (!w.preempt_num || t->child) return;
   if (ch.choose(w.preempt_den) < w.preempt_num) {
+    if (hooks) hooks->on_preempt(t);
     t->st = Thread::READY;
     coro_yield();
   }
@@ -305,7 +306,12 @@ void Kernel::child_die(Proc *p, bool by_sig, int v) {
   p->death_sig = by_sig ? v : 0;
   p->death_code = by_sig ? 0 : (v & 0xff);
   p->wstatus = by_sig ? (v & 0x7f) : ((v & 0xff) << 8);
-  for (size_t fd = 0; fd < p->fds.size(); fd++) if (p->fds[fd].ofd) fd_close(p, (int) fd);
+  for (size_t fd = 0; fd < p->fds.size(); fd++) {
+    if (!p->fds[fd].ofd) continue;
+    OFD *o = p->fds[fd].ofd;
+    if (o->kind == OFD::PIPE_W && o->pipe->len > 0 && !p->is_caller) n_data_at_death++;
+    fd_close(p, (int) fd);
+  }
   Thread *sv = cur; cur = nullptr;
   logrec(K_kern, 1 /* dying */, p->pid, p->wstatus, 0, 0);
   cur = sv;
